@@ -50,6 +50,7 @@ def gen(rng, tier):
             bad.chains[-1].links[-1].data = bytes(h)
             yield "sw all ver %s -" % hx(bad.enc())         # a signature that does not verify: the verdict must survive a repeat too
         yield "sw all build %s %d" % (hx(raw), 0)
+        yield "sw %s parts %s" % (every(600), hx(raw))
         # extending
         if s.cal:
             t0 = s.chains[0].time
@@ -114,7 +115,7 @@ CONFIG.rule = ("one line per sweep. The executor compiles the SDK's allocation f
                "Catalogue: integer lists (lst, list), KSI_TLV parse / nested lists / clone / serialize (tlvp, tlv), KSI_TlvElement, signature parse + "
                "serialize + clone + identity, the asynchronous and the high-availability signing service on a scripted socket, the block signer (masking, metadata, every leaf's signature), calendar-based verification through the file transport, internal verification (verifying and non-verifying signatures, with document hash), aggregation and "
                "extension requests through the file transport, KSI_Signature_signAggregated and KSI_Signature_extendTo with honest and refusing "
-               "replies (PDU v1 / v2), tree builder with hash and metadata leaves and every leaf's chain, signature builder, publications file parse "
+               "replies (PDU v1 / v2), tree builder with hash and metadata leaves and every leaf's chain, signature builder (from a signature, and from parts), publications file parse "
                "+ lookups + serialize, publication strings, HMAC / hashing. Oracle per experiment (Drv/C19.lean entrySpec, on the implementation's "
                "output): no SDK block allocated at the end; no fault fired => status and result of the fault-free run; success under a fault only "
                "with the fault-free result; the repeat gives the fault-free status and result. A sanitizer report (use after free, double free, wild "
